@@ -33,8 +33,18 @@ import (
 func NewWrapper(id string) *aead.Wrapper {
 	key := sha256.Sum256([]byte("verif-key-" + id))
 	w := aead.NewWrapper()
-	if _, err := w.SetConfig(context.Background(), wrapping.WithKeyId("key-"+id)); err != nil {
-		panic(err)
+	// a key id is a label, not the key: a third of the wrappers carry their own id, a third share one stable label
+	// ("audit-key", as when a name is kept across key versions) and a third have none at all, so that a rotation
+	// between two wrappers with equal ids and different key bytes is part of every rotation history
+	switch key[0] % 3 {
+	case 0:
+		if _, err := w.SetConfig(context.Background(), wrapping.WithKeyId("key-"+id)); err != nil {
+			panic(err)
+		}
+	case 1:
+		if _, err := w.SetConfig(context.Background(), wrapping.WithKeyId("audit-key")); err != nil {
+			panic(err)
+		}
 	}
 	if err := w.SetAesGcmKeyBytes(key[:]); err != nil {
 		panic(err)
